@@ -34,10 +34,11 @@ def program_sets(tier):
 
     extra = frozenset({"try-except-noname", "try-except-else", "with-noas", "raise-base", "global-read", "shadowed-builtin"})
     scoping = frozenset({"assign", "import-as", "del", "try-except", "try-except-noname", "with", "with-two", "for", "for-else",
-                         "while-else", "global-read", "shadowed-builtin", "if-walrus", "raise-base", "def", "class"})
+                         "while-else", "global-read", "shadowed-builtin", "if-walrus", "raise-base", "def", "class", "def-rebind",
+                         "async-def", "self-read", "import-as-cur", "try-except-cur"})
     ctl = (BIND_CTL | extra) if tier == "thorough" else scoping
     return [("gen", dict()), ("ctl", dict(size=C.SIZE[tier] + 1, only=ctl, key=("c10ctl", tier))),
-            ("sig", dict(size=1 if tier == "quick" else 2, sigs=("rich", "kwonly", "doc"), key=("c10sig", tier)))]
+            ("sig", dict(size=1 if tier == "quick" else 2, sigs=("rich", "kwonly", "doc", "closure-default"), key=("c10sig", tier)))]
 
 
 def units(tier):
